@@ -14,14 +14,45 @@ TOL == 2       \* 10^-6 units: rounding of the observation + truncation in ToQ6
 ShapeOK(X, Y) == /\ Len(X) = Len(Y)
                  /\ \A v \in 1..Len(Y) : Len(X[v]) = Len(Y[v])
 
+(* Networks with more than SmallN nodes are judged against the SAME definitions         *)
+(* enumerated over pairs of neighbours (Clustering Part 1b: DefN = Def, ZeroCaseN =    *)
+(* ZeroCase, ... proved by TLC on every model input, ClusteringImpl!                   *)
+(* NbrEnumerationEqualsDefinition, and re-checked below on mid-size instances);        *)
+(* enumerating all pairs of nodes costs minutes from 60 nodes on.                      *)
+SmallN == 10
+DriftMaxN == 12        \* the statement-by-statement model multiplies n x n matrices: half the cost of a 40-node record
+TheDef(fn, n, C, d) == IF n <= SmallN THEN Def(fn, n, C, d) ELSE DefN(fn, n, C, d)
+TheHasTriple(fn, n, C) == IF n <= SmallN THEN HasTriple(fn, n, C) ELSE HasTripleN(fn, n, C)
+TheInputClass(fn, n, C) == IF n <= SmallN THEN InputClass(fn, n, C) ELSE InputClassN(fn, n, C)
+(* all (v, i) that are zero cases                                                      *)
+ZeroCasesHold(fn, n, C, nv, Z) ==
+  IF n <= SmallN
+  THEN \A v \in 1..nv : \A i \in 1..n : ZeroCase(fn, v, n, C, i) => Z[v][i] = 1
+  ELSE \A v \in 1..nv : LET P == PartOf(fn, v, n, C) IN
+          \A i \in 1..n : ZeroCaseN(fn, n, P, i) => Z[v][i] = 1
+
+(* mid-size instances (9 nodes: beyond the model instances, below the switch): a dense  *)
+(* arithmetic pattern with cube roots -3..3, its non-negative / symmetric / 0-1 forms   *)
+AsmN == 9
+AsmS == Mat(AsmN, LAMBDA i, j : IF i = j THEN 0 ELSE ((i * i + j * j + 3 * i * j) % 7) - 3)   \* symmetric, signed
+AsmD == Mat(AsmN, LAMBDA i, j : IF i = j THEN 0 ELSE IF (2 * i + 5 * j + i * j) % 3 = 0 THEN 0
+                                 ELSE ((i + 2 * j) % 3) + 1)                                   \* directed, 0..3
+AsmU == Mat(AsmN, LAMBDA i, j : Abs(AsmS[i][j]))
+ASSUME NbrEnumerationOnMidSize ==
+  /\ \A fn \in SignFns : NbrEnumerationAgrees(fn, AsmN, AsmS, 3)
+  /\ \A fn \in {FnWU, FnTWU, FnWD, FnTWD} \cup SignFns : NbrEnumerationAgrees(fn, AsmN, AsmU, 3)
+  /\ \A fn \in {FnWD, FnTWD} : NbrEnumerationAgrees(fn, AsmN, AsmD, 3)
+  /\ \A fn \in BinaryFns : NbrEnumerationAgrees(fn, AsmN, Bin(AsmN, AsmU), 1)
+  /\ \A fn \in {FnBD, FnTBD, FnWD, FnTWD} : NbrEnumerationAgrees(fn, AsmN, Bin(AsmN, AsmD), 1)
+
 JudgeDomain(r) ==
   LET n == r.n  C == r.C  d == r.d  fn == r.fn
-      X == Def(fn, n, C, d)
+      X == TheDef(fn, n, C, d)
       O == r.out
       Z == r.zero
   IN
   (* the statement quantifies over networks on which the value is defined             *)
-  Skip("no_connected_triple",   fn \in TransFns /\ ~HasTriple(fn, n, C),
+  Skip("no_connected_triple",   fn \in TransFns /\ ~TheHasTriple(fn, n, C),
   (* "... return the values ..."                                                      *)
   Chk("Returns",                r.raised = "",
   Chk("Shape",                  ShapeOK(O, X) /\ ShapeOK(Z, X),
@@ -30,9 +61,7 @@ JudgeDomain(r) ==
   Chk("EqualsDefinition",       \A v \in 1..Len(X) : \A i \in 1..Len(X[v]) :
                                    NearFrac(O[v][i], X[v][i][1], X[v][i][2], TOL),
   (* "Nodes with fewer than two neighbours or no triangle get exactly zero"           *)
-  Chk("ExactZeroCases",         fn \in PerNodeFns =>
-                                   \A v \in 1..Len(X) : \A i \in 1..n :
-                                      ZeroCase(fn, v, n, C, i) => Z[v][i] = 1,
+  Chk("ExactZeroCases",         fn \in PerNodeFns => ZeroCasesHold(fn, n, C, Len(X), Z),
   (* "for weights in [0,1] every value lies in [0,1]" (default/zhang work on the      *)
   (*  positive part and on the absolute negative part, both in [0,1])                 *)
   Chk("Range01",                (NonNeg(n, C) \/ fn \in {FnSD, FnSZ}) =>
@@ -46,7 +75,7 @@ NearPipe(obs, fr) == IF fr[2] = 0 THEN ~IsFinite(obs)          \* 0/0 -> nan, x/
 SamePipe(O, P) == /\ ShapeOK(O, P)
                   /\ \A v \in 1..Len(P) : \A i \in 1..Len(P[v]) : NearPipe(O[v][i], P[v][i])
 Drift(r) ==
-  IF r.raised # "" THEN "na"
+  IF r.raised # "" \/ r.n > DriftMaxN THEN "na"
   ELSE IF SamePipe(r.out, RunPipe(r.fn, r.n, r.C, r.d)) THEN "same"
   ELSE IF r.fn = FnTWD /\ SamePipe(r.out, RunPipe(FnTWDcoded, r.n, r.C, r.d))
        THEN "differs:per_node_mask_applied_to_the_sum"
@@ -56,7 +85,7 @@ Judge(r) ==
   IF ~(r.fn \in AllFns /\ IsSquare(r.n, r.C) /\ InDomain(r.fn, r.n, r.C, r.d))
   THEN <<"skip:out_of_domain", "na", "any">>
   ELSE <<JudgeDomain(r), Drift(r),
-         IF r.dtype = "float" THEN InputClass(r.fn, r.n, r.C) ELSE r.dtype \o "_dtype">>
+         IF r.dtype = "float" THEN TheInputClass(r.fn, r.n, r.C) ELSE r.dtype \o "_dtype">>
 
 VARIABLES tid, verdict
 TInit == tid \in 1..Len(Recs) /\ verdict = <<>>
